@@ -158,6 +158,35 @@ def run(F, R, tier):
         R.ob("C09-L", "merging %s with %s%s reports %s" % (sk, nk or "*", "" if not has_default else (" (default requested)" if has_default[0] else " (default not requested)"), "nothing new" if want_none else "the newly requested exports"), is_none == want_none,
              "ImportedExports::add(%s <- %s) returns `%s`: %s" % (sk, nk, expr_text(v)[:40], "exports that were never traced are reported as handled, so they are missing from the emitted module" if is_none else "already traced exports are traced again"), where(v))
     R.floor("C09-L results of ImportedExports::add", n_t, 8)
+    # Exports::extend: what is reported as newly requested
+    exb = F.body("fast_check::range_finder::Exports::extend")
+    EX = "fast_check::range_finder::Exports::"
+    vals_ = []
+    _tail_values_(F, exb["body"]["value"], vals_)
+    for r_ in walk(exb["body"]["value"]):
+        if r_.get("k") == "Ret" and "e" in r_:
+            _tail_values_(F, r_["e"], vals_)
+    n_e = 0
+    for v in vals_:
+        g = guards_at(F, v)
+        p0, p1 = exb["body"]["params"][0].get("lid"), exb["body"]["params"][1].get("lid")
+        def kinds(lid):
+            return {k_ for x in g if x.kind == "pat" and x.pol and peel_value(x.scrut).get("lid") == lid for k_ in ("All", "Subset") if pat_text(x.pat).startswith(EX + k_ + "(") or pat_text(x.pat) == EX + k_}
+        sk, nk = kinds(p0), kinds(p1)
+        is_none = ctor_of(v) == "std::option::Option::None"
+        empty = [x.pol for x in g if x.kind == "cond" and x.node.get("k") == "MethodCall" and x.node["name"] == "is_empty"]
+        if sk == {"All"}:
+            want_none, what = True, "All <- anything"
+        elif nk == {"All"}:
+            want_none, what = False, "Subset <- All"
+        elif nk == {"Subset"} and empty:
+            want_none, what = empty[0], "Subset <- Subset (difference %s)" % ("empty" if empty[0] else "not empty")
+        else:
+            continue
+        n_e += 1
+        R.ob("C09-L", "Exports::extend %s reports %s" % (what, "nothing new" if want_none else "the newly requested part"), is_none == want_none,
+             "Exports::extend (%s) returns `%s`: %s" % (what, expr_text(v)[:40], "members that were never traced are reported as handled and are missing from the emitted declaration" if is_none else "already traced members are reported as new"), where(v))
+    R.floor("C09-L results of Exports::extend", n_e, 4)
     ups = [n for n in ad["_nodes"] if n["k"] == "Assign" and ctor_of(peel(n["r"])) == "fast_check::range_finder::ImportedExports::StarWithDefault"]
     R.ob("C09-L", "merging can upgrade to StarWithDefault", len(ups) >= 3, "only %d upgrade site(s) to StarWithDefault" % len(ups), ad["file"])
     mm = [n for n in ad["_nodes"] if n["k"] == "Match"]
